@@ -14,6 +14,7 @@ are removed at the end (keep: MUT_KEEP=1).
 import json, os, random, re, shutil, subprocess, sys, time
 
 N = int(sys.argv[1]); SEED = int(sys.argv[2]); FILT = sys.argv[3] if len(sys.argv) > 3 else ""
+ROUND2 = bool(os.environ.get("MUT_ROUND2"))  # only the second-round operators are sampled then
 ROOT = "/tmp/mut"; WT = ROOT + "/wt"; H = ROOT + "/harness"; OUT = ROOT + "/out"
 ENV = dict(os.environ, CARGO_NET_OFFLINE="true")
 
@@ -65,6 +66,22 @@ def sites():
                     out.append((f, i, line, new + line[len(code):], f"{pat.strip()} -> {rep.strip()}"))
             if SDL.match(code):
                 out.append((f, i, line, re.sub(r"\S.*$", "();", code, count=1), "delete statement"))
+            if ROUND2:
+                # second round: other statement deletions, constant tweaks, swap of two adjacent statements
+                if re.match(r"^\s*(drop\(.*\);|return;|break;)\s*$", code):
+                    out.append((f, i, line, re.sub(r"\S.*$", "();", code, count=1), "delete drop/return/break"))
+                for pat, rep in [(r"== 0\b", "== 1"), (r"> 0\b", "> 1"), (r"!= 0\b", "!= 1"), (r"\.unwrap_or\(true\)", ".unwrap_or(false)"), (r"\.unwrap_or\(false\)", ".unwrap_or(true)"), (r"\.map_or\(false,", ".map_or(true,"), (r"\.all\(", ".any("), (r"\.any\(", ".all(")]:
+                    for m in re.finditer(pat, code):
+                        new = code[: m.start()] + re.sub(pat, rep, code[m.start():], count=1)
+                        out.append((f, i, line, new + line[len(code):], f"r2 {pat} -> {rep}"))
+                nxt = lines[i + 1] if i + 1 < len(lines) else ""
+                def simple(l):
+                    if l.strip().startswith(("let ", "return", "//", "use ", "break", "continue", "pub ", "mod ", "type ", "impl", "fn ")):
+                        return None
+                    return re.match(r"^(\s*)[a-z_][A-Za-z0-9_\.\(\)\*&:<>, \[\]!=+\-\|\'\"]*;\s*$", l)
+                a, b = simple(line), simple(nxt)
+                if a and b and a.group(1) == b.group(1) and line.strip() != nxt.strip():
+                    out.append((f, i, line, nxt + "\n" + line, "swap with next statement"))
     return out
 
 # ---------------------------------------------------------------- setup
@@ -127,6 +144,8 @@ def run_checks(ids, build=True):
 
 def main():
     all_sites = sites()
+    if ROUND2:
+        all_sites = [x for x in all_sites if x[4].startswith(('r2 ', 'swap', 'delete drop'))]
     rnd = random.Random(SEED)
     rnd.shuffle(all_sites)
     sample = all_sites[:N]
@@ -147,6 +166,8 @@ def main():
         src = open(p).read().split("\n")
         assert src[i] == old
         src[i] = new
+        if what == "swap with next statement":
+            del src[i + 1]
         open(p, "w").write("\n".join(src))
         t0 = time.time()
         rc, o = sh("cargo build --offline --lib -q 2>&1", cwd=WT, timeout=600)
